@@ -307,6 +307,20 @@ class Duration(
     def __truediv__(self, other: Duration | core_constants.Real) -> Duration:
         return self.copy().divide(other)
 
+    # Plain numbers on the left side ('1 + duration', 'sum(duration_list)').
+
+    def __radd__(self, other: core_constants.Real) -> Duration:
+        return self.copy()._math_operation(other, lambda x, y: y + x)
+
+    def __rsub__(self, other: core_constants.Real) -> Duration:
+        return self.copy()._math_operation(other, lambda x, y: y - x)
+
+    def __rmul__(self, other: core_constants.Real) -> Duration:
+        return self.copy()._math_operation(other, lambda x, y: y * x)
+
+    def __rtruediv__(self, other: core_constants.Real) -> Duration:
+        return self.copy()._math_operation(other, lambda x, y: y / x)
+
     def __float__(self) -> float:
         return self.beat_count
 
